@@ -369,6 +369,101 @@ fn elias_fano(ctx: &mut Ctx) {
     }
 }
 
+/// Elias-Fano dictionaries over a grid of (n, u): the length of the upper-bit vector (n + (u >> l) + 1)
+/// takes every residue modulo 64, both builders, last element below u and equal to u; queries at and
+/// beyond the universe. One case per structure; AUX1 = query, AUX2 = method.
+fn elias_fano_grid(ctx: &mut Ctx) {
+    let mut nus: Vec<(usize, usize)> = vec![];
+    for n in 0..=66usize {
+        for u in (0..=40).chain([62, 63, 64, 65, 126, 127, 128, 129, 255, 256, 511, 512, 513, 1023, 1024, 4095, 4096]) {
+            nus.push((n, u));
+        }
+    }
+    for n in [127usize, 128, 129, 1000] {
+        for u in [0usize, 1, 127, 128, 1000, 1024, 16000, 16384, 1 << 20] {
+            nus.push((n, u));
+        }
+    }
+    for (n, u) in nus {
+        for variant in 0..2 {
+            for builder in 0..2 {
+                if !ctx.case(|| format!("EliasFano::<grid> n={n} u={u} last={} builder={}", ["<u", "=u"][variant], ["sequential", "concurrent"][builder])) {
+                    continue;
+                }
+                ctx.nontrivial();
+                let mut s: Vec<usize> = (0..n).map(|i| (i as u128 * u as u128 / n.max(1) as u128) as usize).collect();
+                if variant == 1 {
+                    if let Some(l) = s.last_mut() {
+                        *l = u;
+                    }
+                }
+                let built = guard(|| {
+                    if builder == 0 {
+                        let mut b = EliasFanoBuilder::new(n, u);
+                        for &x in &s {
+                            b.push(x);
+                        }
+                        b.build_with_seq_and_dict()
+                    } else {
+                        let b = EliasFanoConcurrentBuilder::new(n, u);
+                        for (i, &x) in s.iter().enumerate() {
+                            // SAFETY: each index once, monotone values within u
+                            unsafe { b.set(i, x) };
+                        }
+                        b.build_with_seq_and_dict()
+                    }
+                });
+                let Outcome::Ret(ef) = built else {
+                    ctx.count("panicked(unwinding)");
+                    continue;
+                };
+                let mut qs = ood(u);
+                qs.extend([0, 1, u / 2, u.saturating_sub(1), s.last().copied().unwrap_or(0), s.last().copied().unwrap_or(0) + 1]);
+                qs.sort();
+                qs.dedup();
+                for &q in &qs {
+                    AUX1.store(q as u64, std::sync::atomic::Ordering::Relaxed);
+                    let mut m = 0u64;
+                    let mut step = || {
+                        m += 1;
+                        AUX2.store(m, std::sync::atomic::Ordering::Relaxed);
+                    };
+                    macro_rules! q4 {
+                        ($name:literal, $call:expr, $want:expr) => {{
+                            step();
+                            ctx.sub_evaluations += 1;
+                            match guard(|| $call) {
+                                Outcome::Ret(g) => {
+                                    let want = $want;
+                                    if g != want {
+                                        ctx.violation(&format!("C12|EliasFano::{}|wrong-documented-result", $name), format!("n={n} u={u} builder={builder} seq ends {:?}: {}({q}) returned {g:?}, expected {want:?}", s.last(), $name));
+                                    }
+                                }
+                                Outcome::Panic(_) => ctx.count("panicked(unwinding)"),
+                            }
+                        }};
+                    }
+                    q4!("succ", ef.succ(q).map(|x| x.1), s.iter().copied().find(|&x| x >= q));
+                    q4!("succ_strict", ef.succ_strict(q).map(|x| x.1), s.iter().copied().find(|&x| x > q));
+                    q4!("pred", ef.pred(q).map(|x| x.1), s.iter().rev().copied().find(|&x| x <= q));
+                    q4!("pred_strict", ef.pred_strict(q).map(|x| x.1), s.iter().rev().copied().find(|&x| x < q));
+                    q4!("contains", ef.contains(q), s.contains(&q));
+                    q4!("index_of", ef.index_of(q).map(|i| s[i]), if s.contains(&q) { Some(q) } else { None });
+                }
+                for i in ood(n) {
+                    AUX1.store(i as u64, std::sync::atomic::Ordering::Relaxed);
+                    AUX2.store(100, std::sync::atomic::Ordering::Relaxed);
+                    ctx.sub_evaluations += 2;
+                    if let Outcome::Ret(x) = guard(|| ef.get(i)) {
+                        ctx.violation("C12|EliasFano::get|out-of-range-accepted", format!("n={n} u={u}: get({i}) returned {x}"));
+                    }
+                    let _ = guard(|| ef.iter_from(i).count());
+                }
+            }
+        }
+    }
+}
+
 fn rear_coded(ctx: &mut Ctx) {
     let lists: Vec<(String, Vec<String>)> = vec![
         ("empty".into(), vec![]),
@@ -550,6 +645,7 @@ fn main() {
     atomic_bit_field_vectors!(&mut ctx, usize, &[0usize, 13, 64]);
     slices(&mut ctx);
     elias_fano(&mut ctx);
+    elias_fano_grid(&mut ctx);
     rear_coded(&mut ctx);
     functions(&mut ctx);
     misc(&mut ctx);
